@@ -81,3 +81,37 @@ Proof.
   - vm_compute in Hs. discriminate.
   - destruct (Hk 0%nat a eq_refl) as (d & -> & Sd & _). exact Sd.
 Qed.
+
+(* ---- no_hybrid for a universe of two contents whose hashes differ in their second hex digit *)
+Lemma bZ_byte_of_Z : forall z, 0 <= z <= 255 -> bZ (byte_of_Z z) = z.
+Proof.
+  intros z Hz. unfold bZ, byte_of_Z. destruct (Byte.of_N (Z.to_N z)) as [b|] eqn:E.
+  - apply Byte.to_of_N in E. rewrite E. lia.
+  - apply Byte.of_N_None_iff in E. lia.
+Qed.
+
+Lemma from_hex_char_range : forall c x, from_hex_char c = Some x -> 0 <= x <= 15.
+Proof. intros c x. destruct c; cbn; intros E; inversion E; lia. Qed.
+
+Lemma hex_decode_second_digit : forall s b0 rest, hex_decode s = Some (b0 :: rest) ->
+  exists a b r, s = a :: b :: r /\ exists y, from_hex_char b = Some y /\ y = bZ b0 mod 16.
+Proof.
+  intros s b0 rest E. destruct s as [|a [|b r]]; cbn in E; try discriminate.
+  destruct (from_hex_char a) as [x|] eqn:Ea; [|discriminate].
+  destruct (from_hex_char b) as [y|] eqn:Eb; [|discriminate].
+  destruct (hex_decode r); [|discriminate]. inversion E; subst.
+  exists a, b, r. split; [reflexivity|]. exists y. split; [exact Eb|].
+  pose proof (from_hex_char_range _ _ Ea). pose proof (from_hex_char_range _ _ Eb).
+  rewrite bZ_byte_of_Z by lia. rewrite Z.add_comm, Z.mod_add by lia. symmetry. apply Z.mod_small. lia.
+Qed.
+
+Example ex_no_hybrid2 : no_hybrid toyH U2.
+Proof.
+  intros S s d0 Ud0 Hs Hk.
+  assert (exists a b r, s = a :: b :: r /\ exists y, from_hex_char b = Some y /\ y = bZ (byte_of_Z (Z.of_nat (length d0) mod 256)) mod 16) as (a & b & r & -> & y & Hb & Hy).
+  { unfold toyH in Hs. eapply hex_decode_second_digit. exact Hs. }
+  destruct (Hk 1%nat b eq_refl) as (d & Ud & Sd & Hd).
+  assert (d = d0); [|subst; exact Sd].
+  destruct Ud0 as [-> | ->]; destruct Ud as [-> | ->]; try reflexivity; exfalso;
+    vm_compute in Hd; inversion Hd as [Eb']; rewrite <- Eb' in Hb; vm_compute in Hb; vm_compute in Hy; congruence.
+Qed.
